@@ -71,3 +71,59 @@ def r_equality_with_unreachable_value(ck, P, rid, floor=150):
                 ck.violation(R, f.name, 'equality test at %s' % x.loc(), '%s compares a value that lies in [%d, %d] by construction with %d (%#x): the test is never true, so the case it guards never happens and the code that follows runs for the value it was meant to exclude' % (f.name, r[0], r[1], c, c & 0xffffffff), x.loc())
     if n == 0:
         raise AnalysisBroken('%s: no equality test on a range-bounded expression found' % rid)
+
+
+def _narrowed(f, o, d=0):
+    """(bits, signed) when the value is a widening of a value that was explicitly truncated to `bits` (or loaded from / stored to a
+    narrower integer and widened), looking through the widening only"""
+    x = f.v(o)
+    if x is None or d > 4:
+        return None
+    if x.op in ('sext', 'zext'):
+        y = f.v(x.a[0])
+        if y is not None and y.op == 'trunc':
+            return (_width(y.ty), x.op == 'sext')
+        return None
+    return None
+
+
+_LIMITS = {v for b in (8, 16, 32) for v in (-(1 << (b - 1)), (1 << (b - 1)) - 1, (1 << b) - 1)}
+
+
+def r_range_test_after_narrowing(ck, P, rid, floor=4):
+    """belief rule: an ordered comparison with a constant says the value can lie on either side.  Applied to a value that has already been
+    truncated to a narrower integer type (and widened again) whose whole range lies on one side, the test is decided before it is made:
+    the overflow it was meant to detect has already wrapped."""
+    R = ck.rule(rid, 'no ordered comparison with a limit of an integer type (INT16/INT32 MIN/MAX, UINT8/16/32 MAX) is applied to a value that was truncated to a narrower integer type first when every value of that type lies on the same side of the constant (x = (int16_t) sum; if (x > 32767) ...): a range test has to look at the sum before it is narrowed, otherwise the wrapped coordinate passes as in range', floor=floor)
+    n = 0
+    for f in P.functions():
+        for x in f.insts():
+            if x.op != 'icmp' or x.d['p'] in ('eq', 'ne'):
+                continue
+            cs = [a for a in x.a if a[0] == 'c']; ot = [a for a in x.a if a[0] != 'c']
+            if len(cs) != 1 or len(ot) != 1:
+                continue
+            c = int(cs[0][1])
+            if c not in _LIMITS:
+                continue
+            nw = _narrowed(f, ot[0])
+            if nw is None or not nw[0]:
+                n += 1; ck.saw(f)
+                ck.ok(R, '%s: %s (not narrowed)' % (f.name, x.loc()))
+                continue
+            bits, signed = nw
+            lo, hi = (-(1 << (bits - 1)), (1 << (bits - 1)) - 1) if signed else (0, (1 << bits) - 1)
+            p = x.d['p']
+            if x.a[0][0] == 'c':
+                p = {'slt': 'sgt', 'sgt': 'slt', 'sle': 'sge', 'sge': 'sle', 'ult': 'ugt', 'ugt': 'ult', 'ule': 'uge', 'uge': 'ule'}[p]
+            if p[0] == 'u' and (lo < 0 or c < 0):
+                continue
+            n += 1; ck.saw(f)
+            def holds(v):
+                return {'lt': v < c, 'gt': v > c, 'le': v <= c, 'ge': v >= c}[p[1:]]
+            if holds(lo) == holds(hi):
+                ck.violation(R, f.name, 'range test at %s' % x.loc(), '%s compares a value that has been truncated to %d bits (range [%d, %d]) with %d: the outcome is the same for every value of that type, so the test cannot detect the overflow it is written for - the sum has already wrapped when it is tested' % (f.name, bits, lo, hi, c), x.loc())
+            else:
+                ck.ok(R, '%s: %s' % (f.name, x.loc()))
+    if n == 0:
+        raise AnalysisBroken('%s: no ordered comparison with an integer type limit found' % rid)
